@@ -744,6 +744,11 @@ void Exec::do_init(const Step& st, const Client& cl, const std::string& handle_i
     return;
   }
   TRACE("init handle='%s' raw='%s' -> %s existed=%d livebytes %+lld", handle.c_str(), raw.c_str(), g_sols[solidx].name.c_str(), (int)existed, bytes1 - bytes0);
+  if (existed && R.m[handle].discovered) {
+    if (R.grave.size() >= 4) R.grave.erase(R.grave.begin());
+    R.grave.push_back(std::make_pair(handle, R.m[handle]));
+    R.grave.back().second.recent.clear();
+  }
   Inst fresh;
   fresh.sol = solidx;
   fresh.serial = ++inst_serial;
